@@ -7,15 +7,18 @@ Open Scope Z_scope.
 Inductive C39_op : Type :=
 | Ev (v : ver) (e : endian) (tc : tce) (t1 t2 : adesc) (x : val)
     (* reader type t1, writer type t2, a value of t2: assignable? encode with t2, decode with t1 *)
-| As (tc : tce) (c1 c2 : stype).
+| As (tc : tce) (c1 c2 : stype)
     (* assignability of two hand-built structure type objects *)
+| Ty (v : ver) (e : endian) (tc : tce) (t1 t2 : adesc) (x : val).
+    (* as Ev, on compile-time (derive) types: additionally the typed sample the reader builds *)
 
 Inductive C39_ser : Type :=
 | SOk (bytes : list Z) (dec : res val)
 | SFail (r : res unit).
 Inductive C39_out : Type :=
 | OEv (a : res bool) (c1 c2 : stype) (s : C39_ser)   (* c1, c2: the type objects the code built *)
-| OAs (a : res bool).
+| OAs (a : res bool)
+| OTy (a : res bool) (c1 c2 : stype) (s : C39_ser) (typed : option dyn).
 Record C39_case : Type := mkC39 { c_op : C39_op; c_out : C39_out }.
 
 Definition resb_eqb (a b : res bool) : bool :=
@@ -33,25 +36,40 @@ Definition resv_eqb (a b : res val) : bool :=
   | _, _ => false
   end.
 
+Definition ev_model_ok (v : ver) (e : endian) (tc : tce) (t1 t2 : adesc) (x : val)
+    (a : res bool) (c1 c2 : stype) (s : C39_ser) : bool :=
+  stype_match (cto_of t1) c1 && stype_match (cto_of t2) c2 &&
+  resb_eqb (struct_assignable tc c1 c2) a &&
+  match s with
+  | SOk bs dec =>
+    match encode v e (ty_of t2) x with
+    | Ok bs' => list_eqb Z.eqb bs bs' && resv_eqb (decode (ty_of t1) bs) dec
+    | _ => false
+    end
+  | SFail r =>
+    match encode v e (ty_of t2) x, r with
+    | Err p, Err q => p =? q
+    | Panic _, Panic _ => true
+    | _, _ => false
+    end
+  end.
+Definition optdyn_eqb (a b : option dyn) : bool :=
+  match a, b with
+  | Some x, Some y => val_eqb (VData x) (VData y)
+  | None, None => true
+  | _, _ => false
+  end.
+
 Definition C39_model_ok (c : C39_case) : bool :=
   match c_op c, c_out c with
-  | Ev v e tc t1 t2 x, OEv a c1 c2 s =>
-    stype_match (cto_of t1) c1 && stype_match (cto_of t2) c2 &&
-    resb_eqb (struct_assignable tc c1 c2) a &&
-    match s with
-    | SOk bs dec =>
-      match encode v e (ty_of t2) x with
-      | Ok bs' => list_eqb Z.eqb bs bs' && resv_eqb (decode (ty_of t1) bs) dec
-      | _ => false
-      end
-    | SFail r =>
-      match encode v e (ty_of t2) x, r with
-      | Err p, Err q => p =? q
-      | Panic _, Panic _ => true
-      | _, _ => false
-      end
-    end
+  | Ev v e tc t1 t2 x, OEv a c1 c2 s => ev_model_ok v e tc t1 t2 x a c1 c2 s
   | As tc c1 c2, OAs a => resb_eqb (struct_assignable tc c1 c2) a
+  | Ty v e tc t1 t2 x, OTy a c1 c2 s typed =>
+    ev_model_ok v e tc t1 t2 x a c1 c2 s &&
+    match s with
+    | SOk _ (Ok (VData d)) => optdyn_eqb (typed_sample t1 d) typed
+    | _ => match typed with None => true | Some _ => false end
+    end
   | _, _ => false
   end.
 
@@ -100,25 +118,37 @@ Definition adesc_eqb (a b : adesc) : bool :=
      writer type decodes with the reader type into the writer's values for the common members
      and defaults for the rest;
    - conversely, a legitimate evolution inside the covered family (`evolves`) is accepted. *)
+Definition ev_oracle_ok (tc : tce) (t1 t2 : adesc) (x : val) (a : res bool) (s : C39_ser) : bool :=
+  (if adesc_eqb t1 t2 then resb_eqb a (Ok true) else true) &&
+  (if flat_desc t1 && flat_desc t2 && evolves tc t1 t2 then resb_eqb a (Ok true) else true) &&
+  (if wf_ty (ty_of t1) && wf_ty (ty_of t2) && wt (ty_of t2) x then
+     match a with
+     | Ok true =>
+       match s, x with
+       | SOk _ (Ok (VData d)), VData xv => projects t1 xv d
+       | _, _ => false
+       end
+     | Ok false => true
+     | _ => false
+     end
+   else true).
+
 Definition C39_oracle_ok (c : C39_case) : bool :=
   match c_op c, c_out c with
-  | Ev v e tc t1 t2 x, OEv a c1 c2 s =>
-    (if adesc_eqb t1 t2 then resb_eqb a (Ok true) else true) &&
-    (if flat_desc t1 && flat_desc t2 && evolves tc t1 t2 then resb_eqb a (Ok true) else true) &&
-    (if wf_ty (ty_of t1) && wf_ty (ty_of t2) && wt (ty_of t2) x then
-       match a with
-       | Ok true =>
-         match s, x with
-         | SOk _ (Ok (VData d)), VData xv => projects t1 xv d
-         | _, _ => false
-         end
-       | Ok false => true
-       | _ => false
-       end
-     else true)
+  | Ev v e tc t1 t2 x, OEv a c1 c2 s => ev_oracle_ok tc t1 t2 x a s
   | As tc c1 c2, OAs a =>
     (if stype_eqb c1 c2 then resb_eqb a (Ok true) else true) &&
     match a with Ok _ => true | _ => false end
+  | Ty v e tc t1 t2 x, OTy a c1 c2 s typed =>
+    ev_oracle_ok tc t1 t2 x a s &&
+    (* the application's typed sample carries the projection as well *)
+    (if wf_ty (ty_of t1) && wf_ty (ty_of t2) && wt (ty_of t2) x then
+       match a, typed, x with
+       | Ok true, Some d', VData xv => projects t1 xv d'
+       | Ok true, _, _ => false
+       | _, _, _ => true
+       end
+     else true)
   | _, _ => false
   end.
 
@@ -159,10 +189,10 @@ Fixpoint tid_todo (t : tid) : bool :=
    4  the XCDR2 parameter search compares member ids `as u16`
    5  todo!() on TkNone / map / SCC / extended type identifiers
    6  FINAL / APPENDABLE structures: a member that is optional on one side only is accepted,
-      although the optional member is preceded by a presence flag / parameter header *)
-Definition C39_known (c : C39_case) : N :=
-  match c_op c with
-  | Ev v e tc t1 t2 x =>
+      although the optional member is preceded by a presence flag / parameter header
+   7  typed (derive) reader: a member the writer does not have makes create_sample return None
+      unless it is optional or try_construct = USE_DEFAULT *)
+Definition ev_known (t1 t2 : adesc) : N :=
     if common_any (fun m1 m2 => (is_int_aty (am_ty m1) && is_nested (am_ty m2)) ||
                                 (is_nested (am_ty m1) && is_int_aty (am_ty m2))) t1 t2 then 1%N
     else if common_any (fun m1 m2 => nested_app_evolution (am_ty m1) (am_ty m2)) t1 t2 then 3%N
@@ -177,7 +207,17 @@ Definition C39_known (c : C39_case) : N :=
             | _, _ => existsb (fun mm => negb (Bool.eqb (m_opt (am_info (fst mm))) (m_opt (am_info (snd mm)))))
                               (combine (ad_members t1) (ad_members t2))
             end then 6%N
-    else 0%N
+    else 0%N.
+Definition C39_known (c : C39_case) : N :=
+  match c_op c with
+  | Ev v e tc t1 t2 x => ev_known t1 t2
   | As tc c1 c2 =>
     if existsb (fun m => tid_todo (sm_tid m)) (st_members c1 ++ st_members c2) then 5%N else 0%N
+  | Ty v e tc t1 t2 x =>
+    match ev_known t1 t2 with
+    | 0%N => if existsb (fun m => negb (mem (am_id m) (aids (ad_members t2))) &&
+                                  negb (m_opt (am_info m) || am_use_default m)) (ad_members t1)
+             then 7%N else 0%N
+    | k => k
+    end
   end.
